@@ -253,6 +253,24 @@ def check(run):
         starts = er[:1] or [f.site for f in inv]        # from the pop: the re-arm may come before or after the handler is invoked
         run.check(bool(inv) and bool(arms) and not any(q.exit_reachable_under(ol, s_, arms, remain) for s_ in starts), 'R10', 'resolver-timer', '%s<%s>' % (ol.norm, tag), ol.loc(), 'after serving an entry the timer is not re-armed for the next one on every path where the queue is non-empty', 're-armed unless empty')
         no_member_after_handler(run, ol, tag)
+        # a completion of the resolver's timer that was already posted cannot be revoked by cancel()/re-arm: when it runs, the
+        # front entry may be a NEWER lookup whose time has not come - it is served only if its completion time has been reached
+        import p02 as _p02
+        for c_ in er:
+            due = False
+            for at, pol in q.guards_at(ol, c_):
+                ca = q.cmp_atom(at)
+                if not ca:
+                    continue
+                op_ = ca[0] if pol else q.NEG[ca[0]]
+                tl, tr = q.render(ol, ca[1]), q.render(ol, ca[2])
+                if 'completion_time' in tl and op_ in ('<=', '<') and _p02.fresh_clock_reading(ol, ca[2])[0]:
+                    due = True
+                if 'completion_time' in tr and op_ in ('>=', '>') and _p02.fresh_clock_reading(ol, ca[1])[0]:
+                    due = True
+            run.check(due, 'R5', 'served-only-when-due', '%s<%s>' % (ol.norm, tag), ol.loc(c_),
+                      'on_lookup serves the front entry without comparing its completion time with the clock: a timer completion that was already posted when cancel() emptied the queue pops the NEXT lookup (requested in the meantime) and completes it at once, before its latency has elapsed',
+                      'the front entry is served only when its completion time has been reached')
         ed = [v for n in ol.all_nodes() if n['k'] == 'decl' for v in n['vars'] if v.get('init') is not None and 'bool' in ol.ty(v['t']) and 'm_queue.' in q.render(ol, v['init'])]
         if ed:
             run.check(q.render(ol, q.strip_casts(ed[0]['init'])).replace('!', '') in ('m_queue.empty()', 'm_queue.size()') and all(q.precedes(ol, er[0], n) for n in ol.all_nodes() if n['k'] == 'decl' and any(v is ed[0] for v in n['vars'])) if er else False,
